@@ -137,6 +137,17 @@ def check_api(res, model, desc, rng, tag):
                     res.violation("correspondence", f"rate assignment {pos}: model {ms} vs implementation {st!r}", case)
                     return
         c01.corr_rhs(res, a, [ol.strip_lhs(s) for s in a.ode.fex], "channel A (ode.fex)", case) if a.model else None
+    # a second use of the same network (another back-end): the modifiers are still there and still hit the same targets
+    _, ode2 = ol.impl_ode(a.net, method="sparse")
+    if list(ode2.rateeqns) != list(a.ode.rateeqns) or list(ode2.fex) != list(a.ode.fex):
+        k = next((i for i, (x, y) in enumerate(zip(ode2.rateeqns, a.ode.rateeqns)) if x != y), None)
+        res.violation("oracle", "a second preparation of the same network gives other "
+                      + (f"rate assignments: position {k}: {a.ode.rateeqns[k]!r} first, {ode2.rateeqns[k]!r} second" if k is not None else "right-hand sides")
+                      + f"; the network's rate_modifier is now {dict(a.net.rate_modifier or {})}", case)
+        return
+    if {str(k): str(v) for k, v in (a.net.rate_modifier or {}).items()} != {str(k): str(v) for k, v in rmod.items()}:
+        res.violation("oracle", f"using the network changed its rate_modifier: {rmod} -> {dict(a.net.rate_modifier or {})}", case)
+        return
     res.case(("c13", tag, repr(desc)), sample={"indices": idxs[:8], "rate_modifier": rmod, "ode_modifier": desc.get("ode_modifier"),
                                              "rateeqns[0]": a.ode.rateeqns[0][:100]},
              nontrivial=bool(rmod) or bool(desc.get("ode_modifier")))
